@@ -7,6 +7,7 @@ From Coq Require Import List NArith.
 From Goit Require Import Bytes Tree Index IndexFacts DiffFacts TreeFacts.
 From Goit Require Import Obj World Repo ExactFacts.
 From Goit Require Import Bridge.
+From Goit Require TreeUniqueFacts.
 From Goit Require Import Inv BranchFacts SnapshotFacts RestoreFacts.
 Import ListNotations.
 
@@ -149,3 +150,32 @@ Print Assumptions C09_restore_worktree_total.
 Print Assumptions C09_restore_staged_total.
 Print Assumptions C09_unknown_argument_refuses_all.
 Print Assumptions C09_restore_staged_dot_resets_everything.
+
+(* restore --staged on every reachable repository, with the selection stated on HEAD's snapshot only
+   (no hypothesis on the shape of HEAD's tree: that no directory name occurs twice in a tree Goit wrote
+   is an invariant of every history, TreeUniqueFacts.reachable_unique): exactly the selected entries
+   become HEAD's entries, every other entry, the work tree, the store and the refs are unchanged *)
+Theorem C09_restore_staged_total_spec : forall e c w args ns,
+  Reachable w -> w_coll w = false -> SmallStore (w_objs w) ->
+  w_inited w = true -> ctx_of w = Some c ->
+  head_nodes c w = Some ns ->
+  args <> [] ->
+  (forall a, In a args -> st_known w ns a) ->
+  repeats_in_head ns (idx_targets w ns args) ->
+  exists w' tr,
+    step (ACmd e (CRestore true args)) w = (w', OOk [], tr) /\
+    Canonical (idx_of w') /\
+    (forall q, st_selected_spec w (flatten [] ns) args q -> staged w' q = stg (flatten [] ns) q) /\
+    (forall q, ~ st_selected_spec w (flatten [] ns) args q -> staged w' q = staged w q) /\
+    same_wt w w' /\ same_objs w w' /\ ExactFacts.same_meta w w' /\
+    w' = apply_effects tr w /\ Forall (fun ef => is_idx ef = true) tr.
+Proof. exact TreeUniqueFacts.restore_staged_total_spec'. Qed.
+
+(* the selection computed by Goit's walk over HEAD's tree is the selection by path prefix *)
+Theorem C09_selection_is_by_prefix : forall w c ns args q,
+  Reachable w -> w_coll w = false -> SmallStore (w_objs w) -> ctx_of w = Some c ->
+  head_nodes c w = Some ns ->
+  (st_selected w ns args q <-> st_selected_spec w (flatten [] ns) args q).
+Proof. exact TreeUniqueFacts.st_selected_iff_reachable. Qed.
+Print Assumptions C09_restore_staged_total_spec.
+Print Assumptions C09_selection_is_by_prefix.
